@@ -226,8 +226,10 @@ func c10Run(rt *hookrt.Runtime, sc *c10Scenario, seed int64) {
 	gate := make(chan struct{}) // slow messages stay inside their handler function until "release"
 	var gateOnce sync.Once
 	release := func() { gateOnce.Do(func() { close(gate) }) }
+	slowEntered := make(chan struct{}, 64)
 	slowWait := func(msg *message.Message) {
 		if msg.Metadata.Get("slow") != "" {
+			slowEntered <- struct{}{}
 			select {
 			case <-gate:
 			case <-time.After(30 * time.Second):
@@ -453,6 +455,13 @@ func c10Run(rt *hookrt.Runtime, sc *c10Scenario, seed int64) {
 			msg.Metadata.Set("slow", "1")
 			if !subs[op.H].emit(msg, c10ProbeWait) {
 				rt.Stamp("api.probe_stuck", fmt.Sprint(op.H), "false")
+			} else {
+				// go on only when the message is inside its handler function (counted in runningHandlersWg)
+				select {
+				case <-slowEntered:
+				case <-time.After(c10ProbeWait):
+					note(fmt.Sprintf("slow message of %d never reached its handler", op.H))
+				}
 			}
 		case "release":
 			release()
